@@ -10,6 +10,7 @@ COQ_AGREE = "agree"
 COQ_PROP_OK = "prop_ok"
 RULE = ("seeded random trees built from the public classes: agents nested up to depth 4 (fan-out <= 3), environments from leaf / ModularEnvironment (also via from_dict) / "
         "EnvironmentWrapper, sensors and actuators from leaves / dictionaries / wrappers (wrapper objects or plain functions) up to depth 4, an action value shaped like the actuator tree; in 30% of the trees distinct components of one class compare equal and hash alike (value-like objects); "
+        "the dictionary composites of the trees are user subclasses with counters of their own (every root event, one save, one load and one data call each - a harness-side clause). "
         "all eight root events are issued. Non-trivial = depth >= 3 somewhere and at least one dictionary and one wrapper; distinct = canonical JSON.")
 TRUSTED = [
     "Coq 8.16.1 kernel incl. vm_compute",
@@ -115,7 +116,16 @@ def precheck(case, obs):
         return {"agree": False, "prop_ok": False}
     if any(-1 in e for e in obs["events"]):
         return {"agree": False, "prop_ok": False}
+    if composite_bypassed(obs):
+        return {"agree": False, "prop_ok": False}
     return None
+
+
+def composite_bypassed(obs):
+    """a user subclass of SensorsDict / ActuatorsDict placed in the tree must get every root event, one save, one load and the
+    data call exactly once - like any other component (harness-side clause; the Coq model gives these nodes no identity)"""
+    want = {"setup": 1, "teardown": 1, "paused": 1, "resumed": 1, "save": 1, "load": 1, "data": 1}
+    return any(c != want for c in obs.get("composites") or [])
 
 
 N = {"agent": "n_agent", "environment": "n_environment", "sensor": "n_sensor", "actuator": "n_actuator", "wrapper": "n_wrapper",
@@ -189,12 +199,18 @@ def nontrivial(case, obs):
     return m["depth"] >= 3 and m["dict"] and m["wrap"]
 
 
-def signature(case, obs):
+def _signature0(case, obs):
     if "error" in obs:
         return "raises:" + obs["error"].split(":")[0]
     if "crash" in obs:
         return "crash"
     return "composite-transparency"
+
+
+def signature(case, obs):
+    if "error" not in obs and "crash" not in obs and composite_bypassed(obs):
+        return "composite-subclass-bypassed"
+    return _signature0(case, obs)
 
 
 def describe(case, obs):
